@@ -130,8 +130,8 @@ theorem headDone_some {s : St α β ε} {r : Except ε β} {rest : List Nat}
 
 /-- rank of the consumer's program point -/
 def rank : CPc α β ε → Nat
-  | .done _ _ => 0 | .exitWait _ _ => 1 | .cancel => 2 | .drain => 3 | .pull => 4 | .submit _ => 4
-  | .yielded _ => 5 | .waitHead _ => 5
+  | .done _ _ => 0 | .exitWait _ _ => 1 | .cancel => 2 | .drain => 3 | .drainErr _ => 3
+  | .pull => 4 | .submit _ => 4 | .yielded _ => 5 | .yieldedErr _ => 5 | .waitHead _ => 5
 
 /-- 1 when the consumer holds a pulled, not yet submitted element -/
 def held : CPc α β ε → Nat
@@ -154,7 +154,7 @@ inductive CStep (s : St α β ε) : St α β ε → Prop where
   | pullEnd (hc : s.c = .pull) (hs : s.src = []) (he : s.ending = none) :
       CStep s { s with c := .drain }
   | pullRaise (e : ε) (hc : s.c = .pull) (hs : s.src = []) (he : s.ending = some e) :
-      CStep s { s with c := .exitWait (some e) false }
+      CStep s { s with c := .drainErr e }
   | waitOk (x : α) (i : Nat) (rest : List Nat) (y : α) (v : β) (hc : s.c = .waitHead x)
       (hq : s.q = i :: rest) (hf : s.futs[i]? = some (y, .done (.ok v))) :
       CStep s { s with q := rest, delivered := s.delivered ++ [v], c := .yielded (some x) }
@@ -171,6 +171,14 @@ inductive CStep (s : St α β ε) : St α β ε → Prop where
   | drainErr (i : Nat) (rest : List Nat) (y : α) (e : ε) (hc : s.c = .drain)
       (hq : s.q = i :: rest) (hf : s.futs[i]? = some (y, .done (.error e))) :
       CStep s { s with q := rest, c := .exitWait (some e) false }
+  | errDrainEmpty (e : ε) (hc : s.c = .drainErr e) (hq : s.q = []) :
+      CStep s { s with c := .exitWait (some e) false }
+  | errDrainOk (e : ε) (i : Nat) (rest : List Nat) (y : α) (v : β) (hc : s.c = .drainErr e)
+      (hq : s.q = i :: rest) (hf : s.futs[i]? = some (y, .done (.ok v))) :
+      CStep s { s with q := rest, delivered := s.delivered ++ [v], c := .yieldedErr e }
+  | errDrainErr (e : ε) (i : Nat) (rest : List Nat) (y : α) (e' : ε) (hc : s.c = .drainErr e)
+      (hq : s.q = i :: rest) (hf : s.futs[i]? = some (y, .done (.error e'))) :
+      CStep s { s with q := rest, c := .exitWait (some e') false }
   | cancelEmpty (hc : s.c = .cancel) (ht : s.termKind = .cancelQueued) (hq : s.q = []) :
       CStep s { s with c := .exitWait none true }
   | cancelPending (i : Nat) (rest : List Nat) (y : α) (hc : s.c = .cancel)
@@ -229,6 +237,16 @@ theorem step_consumer {s s' : St α β ε} (h : step s .consumer = some s') : CS
       · obtain ⟨i, y, hq, hf⟩ := headDone_some ‹_›
         injection h with h; subst h; exact .drainErr i _ y _ ‹_› hq hf
       · cases h
+  · -- drainErr
+    split at h
+    · injection h with h; subst h; exact .errDrainEmpty _ ‹_› ‹_›
+    · split at h
+      · obtain ⟨i, y, hq, hf⟩ := headDone_some ‹_›
+        injection h with h; subst h; exact .errDrainOk _ i _ y _ ‹_› hq hf
+      · obtain ⟨i, y, hq, hf⟩ := headDone_some ‹_›
+        injection h with h; subst h; exact .errDrainErr _ i _ y _ ‹_› hq hf
+      · cases h
+  · cases h
   · -- cancel
     split at h
     · split at h
@@ -255,18 +273,21 @@ theorem step_consumer {s s' : St α β ε} (h : step s .consumer = some s') : CS
 
 theorem step_resume {s s' : St α β ε} (h : step s .resume = some s') :
     (∃ x, s.c = .yielded (some x) ∧ s' = { s with c := .submit x }) ∨
-    (s.c = .yielded none ∧ s' = { s with c := .drain }) := by
+    (s.c = .yielded none ∧ s' = { s with c := .drain }) ∨
+    (∃ e, s.c = .yieldedErr e ∧ s' = { s with c := .drainErr e }) := by
   simp only [step] at h
   split at h
   · injection h with h; exact .inl ⟨_, ‹_›, h.symm⟩
-  · injection h with h; exact .inr ⟨‹_›, h.symm⟩
+  · injection h with h; exact .inr (.inl ⟨‹_›, h.symm⟩)
+  · injection h with h; exact .inr (.inr ⟨_, ‹_›, h.symm⟩)
   · cases h
 
 theorem step_close {s s' : St α β ε} (h : step s .close = some s') :
-    ∃ x, s.c = .yielded x ∧ s' = { s with c := .cancel } := by
+    ((∃ x, s.c = .yielded x) ∨ (∃ e, s.c = .yieldedErr e)) ∧ s' = { s with c := .cancel } := by
   simp only [step] at h
   split at h
-  · injection h with h; exact ⟨_, ‹_›, h.symm⟩
+  · injection h with h; exact ⟨.inl ⟨_, ‹_›⟩, h.symm⟩
+  · injection h with h; exact ⟨.inr ⟨_, ‹_›⟩, h.symm⟩
   · cases h
 
 theorem step_start {s s' : St α β ε} (h : step s .start = some s') :
@@ -324,11 +345,13 @@ theorem mu_step {s s' : St α β ε} {t : Tid} (h : step s t = some s') : mu s' 
       nPending_append, nRunning_append, nPending_kill, nRunning_kill]
     all_goals omega
   | resume =>
-    rcases step_resume h with ⟨x, hc, rfl⟩ | ⟨hc, rfl⟩ <;> simp only [mu, hc, rank, held] <;> omega
+    rcases step_resume h with ⟨x, hc, rfl⟩ | ⟨hc, rfl⟩ | ⟨e, hc, rfl⟩ <;>
+      simp only [mu, hc, rank, held] <;> omega
   | close =>
-    obtain ⟨x, hc, rfl⟩ := step_close h
-    simp only [mu, hc, rank]
-    cases x <;> simp only [held] <;> omega
+    obtain ⟨⟨x, hc⟩ | ⟨e, hc⟩, rfl⟩ := step_close h
+    · simp only [mu, hc, rank]
+      cases x <;> simp only [held] <;> omega
+    · simp only [mu, hc, rank, held]; omega
   | start =>
     obtain ⟨i, x, _, _, hf, rfl⟩ := step_start h
     have h1 := nPending_setF .running hf
@@ -415,9 +438,9 @@ theorem futs_step {s s' : St α β ε} {t : Tid} {i : Nat} {x : α} {st : FState
       · simp only [ha]; exact .inl rfl
     all_goals exact ⟨st, hi, .inl rfl⟩
   | resume =>
-    rcases step_resume h with ⟨y, hc, rfl⟩ | ⟨hc, rfl⟩ <;> exact ⟨st, hi, .inl rfl⟩
+    rcases step_resume h with ⟨y, hc, rfl⟩ | ⟨hc, rfl⟩ | ⟨e, hc, rfl⟩ <;> exact ⟨st, hi, .inl rfl⟩
   | close =>
-    obtain ⟨y, hc, rfl⟩ := step_close h
+    obtain ⟨_, rfl⟩ := step_close h
     exact ⟨st, hi, .inl rfl⟩
   | start =>
     obtain ⟨j, y, _, _, hf, rfl⟩ := step_start h
@@ -463,9 +486,9 @@ theorem futs_step_new {s s' : St α β ε} {t : Tid} {i : Nat} {x : α} {st' : F
     case exitErrKill e cl hc hk => simp [hn] at hi
     all_goals simp [hn] at hi
   | resume =>
-    rcases step_resume h with ⟨y, hc, rfl⟩ | ⟨hc, rfl⟩ <;> simp [hn] at hi
+    rcases step_resume h with ⟨y, hc, rfl⟩ | ⟨hc, rfl⟩ | ⟨e, hc, rfl⟩ <;> simp [hn] at hi
   | close =>
-    obtain ⟨y, hc, rfl⟩ := step_close h
+    obtain ⟨_, rfl⟩ := step_close h
     simp [hn] at hi
   | start =>
     obtain ⟨j, y, _, _, hf, rfl⟩ := step_start h
@@ -479,7 +502,7 @@ theorem futs_step_new {s s' : St α β ε} {t : Tid} {i : Nat} {x : α} {st' : F
 /-! ## The inductive invariant -/
 
 def live : CPc α β ε → Bool
-  | .pull | .waitHead _ | .yielded _ | .submit _ | .drain => true
+  | .pull | .waitHead _ | .yielded _ | .submit _ | .drain | .drainErr _ | .yieldedErr _ => true
   | _ => false
 
 def NoPending (futs : List (α × FState β ε)) : Prop :=
@@ -507,7 +530,8 @@ def ExitInv (tk : TermKind) (f : α → Except ε β) (src₀ : List α) (ending
   (closed = false →
     match r with
     | none => s.delivered.length = src₀.length ∧ NoActive s.futs
-    | some e => (ending = some e ∧ s.src = []) ∨ src₀[s.delivered.length]?.map f = some (.error e))
+    | some e => (ending = some e ∧ s.src = [] ∧ s.delivered.length = src₀.length) ∨
+        src₀[s.delivered.length]?.map f = some (.error e))
 
 /-- the part of the invariant that depends on the consumer's program point -/
 def PhaseInv (b : Nat) (ek : ExitKind) (tk : TermKind) (f : α → Except ε β) (src₀ : List α)
@@ -519,6 +543,8 @@ def PhaseInv (b : Nat) (ek : ExitKind) (tk : TermKind) (f : α → Except ε β)
   | .yielded none => s.pulled = s.futs.length ∧ s.src = []
   | .submit x => s.pulled = s.futs.length + 1 ∧ src₀[s.futs.length]? = some x ∧ s.q.length < b
   | .drain => s.pulled = s.futs.length ∧ s.src = []
+  | .drainErr e => s.pulled = s.futs.length ∧ s.src = [] ∧ ending = some e
+  | .yieldedErr e => s.pulled = s.futs.length ∧ s.src = [] ∧ ending = some e
   | .cancel => True
   | .exitWait r closed => ExitInv tk f src₀ ending s r closed
   | .done r closed => ExitInv tk f src₀ ending s r closed ∧ (QuiescentExit ek tk r closed → NoActive s.futs)
@@ -744,10 +770,11 @@ theorem inv_consumer (hI : Inv w b ek tk f src₀ ending s) (h : step s .consume
     · intro _; exact hlv
     · simp only [PhaseInv]; exact ⟨hph, hs⟩
   case pullRaise e hc hs he =>
+    simp only [PhaseInv, hc] at hph
+    have hlv := hI.liveInv (by simp [hc, live])
     refine { hI with liveInv := ?_, phase := ?_ }
-    · intro h; simp [live] at h
-    · simp only [PhaseInv, ExitInv]
-      refine ⟨by simp, by simp, fun _ => .inl ⟨?_, hs⟩⟩
+    · intro _; exact hlv
+    · simp only [PhaseInv]; refine ⟨hph, hs, ?_⟩
       rw [← hI.hend]; exact he
   case waitOk x i rest y v hc hq hf =>
     simp only [PhaseInv, hc] at hph
@@ -849,6 +876,57 @@ theorem inv_consumer (hI : Inv w b ek tk f src₀ ending s) (h : step s .consume
       simpa [he] using this
     · simp only [PhaseInv]; exact hph
   case drainErr i rest y e hc hq hf =>
+    simp only [PhaseInv, hc] at hph
+    obtain ⟨hlen, hnc, hpi⟩ := hI.liveInv (by simp [hc, live])
+    obtain ⟨hi, hr⟩ := range_cons hq hI.qRange hI.qLen
+    have hq' : s.q.length = rest.length + 1 := by simp [hq]
+    have hiD : i = s.delivered.length := by omega
+    have hy := hI.args _ _ _ hf
+    have hv := hI.doneVal _ _ _ hf _ rfl
+    refine { hI with qRange := hr, qLen := ?_, qBound := ?_, pendInQ := ?_, liveInv := ?_, phase := ?_ }
+    · simp <;> omega
+    · simp <;> omega
+    · intro j z st hj hst
+      have h1 := hI.pendInQ j z st hj hst
+      have : j ≠ i := by rintro rfl; rw [hf] at hj; subst hst; simp at hj
+      simp <;> omega
+    · intro h; simp [live] at h
+    · simp only [PhaseInv, ExitInv]
+      refine ⟨by simp, by simp, fun _ => .inr ?_⟩
+      rw [← hiD, hy]; simp [hv]
+  case errDrainEmpty e hc hq =>
+    simp only [PhaseInv, hc] at hph
+    obtain ⟨hlen, hnc, hpi⟩ := hI.liveInv (by simp [hc, live])
+    refine { hI with liveInv := ?_, phase := ?_ }
+    · intro h; simp [live] at h
+    · simp only [PhaseInv, ExitInv]
+      refine ⟨by simp, by simp, fun _ => .inl ⟨hph.2.2, hph.2.1, ?_⟩⟩
+      simp [hq, hph.2.1] at hlen hsl ⊢; omega
+  case errDrainOk e i rest y v hc hq hf =>
+    simp only [PhaseInv, hc] at hph
+    obtain ⟨hlen, hnc, hpi⟩ := hI.liveInv (by simp [hc, live])
+    obtain ⟨hi, hr⟩ := range_cons hq hI.qRange hI.qLen
+    have hq' : s.q.length = rest.length + 1 := by simp [hq]
+    have hiD : i = s.delivered.length := by omega
+    have hy := hI.args _ _ _ hf
+    have hv := hI.doneVal _ _ _ hf _ rfl
+    refine { hI with qRange := hr, qLen := ?_, qBound := ?_, deliv := ?_, pendInQ := ?_, bufInv := ?_,
+                     liveInv := ?_, phase := ?_ }
+    · simp <;> omega
+    · simp <;> omega
+    · exact deliv_snoc hI.deliv (hiD ▸ hy) hv.symm
+    · intro j z st hj hst
+      have h1 := hI.pendInQ j z st hj hst
+      have : j ≠ i := by rintro rfl; rw [hf] at hj; subst hst; simp at hj
+      simp <;> omega
+    · simp <;> omega
+    · intro _
+      refine ⟨by simp <;> omega, hnc, ?_⟩
+      have := hpi.pop hf (by omega)
+      have he : s.futs.length - rest.length = s.futs.length - s.q.length + 1 := by omega
+      simpa [he] using this
+    · simp only [PhaseInv]; exact hph
+  case errDrainErr e i rest y e' hc hq hf =>
     simp only [PhaseInv, hc] at hph
     obtain ⟨hlen, hnc, hpi⟩ := hI.liveInv (by simp [hc, live])
     obtain ⟨hi, hr⟩ := range_cons hq hI.qRange hI.qLen
@@ -1011,7 +1089,11 @@ theorem inv_consumer (hI : Inv w b ek tk f src₀ ending s) (h : step s .consume
 theorem inv_resume (hI : Inv w b ek tk f src₀ ending s) (h : step s .resume = some s') :
     Inv w b ek tk f src₀ ending s' := by
   have hph := hI.phase
-  rcases step_resume h with ⟨x, hc, rfl⟩ | ⟨hc, rfl⟩
+  rcases step_resume h with ⟨x, hc, rfl⟩ | ⟨hc, rfl⟩ | ⟨e, hc, rfl⟩
+  · simp only [PhaseInv, hc] at hph
+    have hlv := hI.liveInv (by simp [hc, live])
+    refine { hI with liveInv := fun _ => hlv, phase := ?_ }
+    simp only [PhaseInv]; exact hph
   · simp only [PhaseInv, hc] at hph
     have hlv := hI.liveInv (by simp [hc, live])
     refine { hI with liveInv := fun _ => hlv, phase := ?_ }
@@ -1023,7 +1105,7 @@ theorem inv_resume (hI : Inv w b ek tk f src₀ ending s) (h : step s .resume = 
 
 theorem inv_close (hI : Inv w b ek tk f src₀ ending s) (h : step s .close = some s') :
     Inv w b ek tk f src₀ ending s' := by
-  obtain ⟨x, hc, rfl⟩ := step_close h
+  obtain ⟨_, rfl⟩ := step_close h
   refine { hI with liveInv := ?_, phase := ?_ }
   · intro h; simp [live] at h
   · simp only [PhaseInv]
@@ -1161,9 +1243,10 @@ theorem head_progress (hI : Inv w b ek tk f src₀ ending s) (hw : 1 ≤ w) (hli
   | done r => exact .inl ⟨y, r, hget⟩
   | cancelled => exact absurd rfl (hnc _ _ _ hget)
 
-/-- unless the generator is suspended at a `yield` or finished, some thread can move -/
+/-- unless the generator is suspended at a `yield` (of the main loop / the drain loop: `.yielded`,
+    or of the error drain: `.yieldedErr`) or finished, some thread can move -/
 theorem no_deadlock_inv (hI : Inv w b ek tk f src₀ ending s) (hw : 1 ≤ w) (hb : 1 ≤ b)
-    (hnd : isDone s = false) (hny : ∀ x, s.c ≠ .yielded x) :
+    (hnd : isDone s = false) (hny : ∀ x, s.c ≠ .yielded x) (hnye : ∀ e, s.c ≠ .yieldedErr e) :
     (∃ s', step s .consumer = some s') ∨ (∃ s', step s .start = some s') ∨
       (∃ i s', step s (.finish i) = some s') := by
   have hph := hI.phase
@@ -1191,6 +1274,15 @@ theorem no_deadlock_inv (hI : Inv w b ek tk f src₀ ending s) (hw : 1 ≤ w) (h
       · left
         cases r <;> simp [step, hc, headDone, hq, hf]
       · exact .inr hpool
+  | drainErr e =>
+    cases hq : s.q with
+    | nil => left; simp [step, hc, hq]
+    | cons i rest =>
+      rcases head_progress hI hw (by simp [hc, live]) hq with ⟨y, r, hf⟩ | hpool
+      · left
+        cases r <;> simp [step, hc, headDone, hq, hf]
+      · exact .inr hpool
+  | yieldedErr e => exact absurd hc (hnye e)
   | cancel =>
     left
     cases htk : s.termKind with
